@@ -149,7 +149,9 @@ def oracle(tier, rng, deep=False):
                 pen_mask = np.ones(p, bool) if unpen is None else ~unpen
                 inp = dict(kind=kind, solver=sname, datafit=dname, X=X.tolist(), y=y.tolist(), fit_intercept=fi, alpha=amax * f, weights=wts.tolist())
                 if want_zero and np.any(w[pen_mask] != 0):
-                    failures.append(dict(site=f"nonzero-above-alpha_max:{kind}", input=inp, observed=w.tolist()))
+                    # a site of its own for: non-convex penalty, fitted intercept, targets with an offset, cold start
+                    qual = ":non-convex+intercept+offset-targets:cold-start" if (kind in ("MCPenalty", "WeightedMCPenalty") and fi and abs(float(np.mean(y))) > 0.5) else ""
+                    failures.append(dict(site=f"nonzero-above-alpha_max:{kind}{qual}", input=inp, observed=w.tolist()))
                 elif want_zero:
                     viol, worst = sl.kkt_violation(dname, {}, kind, dict(alpha=amax * f, weights=wts, l1_ratio=locals().get("rho", 1.0), gamma=3.0), X, y, w, b, fi)
                     if viol > 1e-5:
